@@ -3,6 +3,7 @@ import ParryModel.C05.Model
 import ParryModel.C05.Lemmas
 import ParryModel.C05.Tri3
 import ParryModel.C05.Theorems1
+import ParryModel.C07.Theorems
 set_option linter.style.haveILetI false
 set_option linter.unusedSimpArgs false
 set_option linter.unusedVariables false
@@ -1191,5 +1192,78 @@ example : FeatContains3 (⟨-4, -4, -4⟩ : V3 ℚ) ⟨4, 4, 4⟩ (Feat.face 0) 
     FeatContains3 (⟨-1, -2, -3⟩ : V3 ℚ) ⟨1, 2, 3⟩ (Feat.edge (6 * 4 + 0)) ⟨1/2, -2, -3⟩ ∧
     FeatContains3 (⟨-1, -2, -3⟩ : V3 ℚ) ⟨1, 2, 3⟩ (Feat.vertex 5) ⟨-1, 2, -3⟩ := by
   simp only [FeatContains3, sideOf]; norm_num
+
+/-! ## Composite shapes (`point_composite_shape.rs`): projection = best-first minimum over the parts
+
+`PointQuery for Compound / Polyline / TriMesh` runs the best-first BVH traversal of C07 with the lane weight
+`aabb.distance_to_local_point(pt)` and the leaf cost `distance(pt, part.project_local_point(pt).point)`.
+The corollary below combines C07's `bestFirst_optimal` with the per-part optimality theorems of this file: the part returned
+by the traversal carries a point of the union that is nearest among *all* points of *all* parts.  (Costs are squared
+distances — monotone in the distances the code compares.  The `solid && is_inside` early exit returns a projection equal to
+the query point, whose cost is `0`; see `composite_early_exit_optimal`.) -/
+
+open Model.Bvh Model.Bvh.Tree in
+/-- **composite projection is the nearest point of the union**: let every part `d` come with a membership predicate `PartMem d`
+and a projection `proj d` of the query point `p` that is a member and is nearest among the members (this is what the
+`*_project_mem` / `*_project_optimal` theorems prove for each primitive), and let the lane weights be lower bounds of the
+leaf costs below them (`C07.LB`; for box distances this is `axis_lower_bound`).  Then the best-first traversal returns a part
+whose projection is a point of that part at least as close to `p` as every point of every part — or nothing iff there is no part. -/
+theorem composite_project_optimal {B L : Type} (boxCost : B → K) (proj : L → V3 K) (PartMem : L → V3 K → Prop) (p : V3 K)
+    (t : Tree B L)
+    (hmem : ∀ d, PartMem d (proj d))
+    (hpart : ∀ d q, PartMem d q → dsq3 p (proj d) ≤ dsq3 p q)
+    (hlb : C07.LB boxCost (fun _ d => dsq3 p (proj d)) t) :
+    ∃ res : Option (K × L), bestFirst C07.ltb boxCost (fun _ d => dsq3 p (proj d)) t = some res ∧
+      (∀ (c : K) (d : L), res = some (c, d) →
+        c = dsq3 p (proj d) ∧ (∃ b : B, (b, d) ∈ leaves t) ∧ PartMem d (proj d) ∧
+        ∀ (b' : B) (d' : L), (b', d') ∈ leaves t → ∀ q, PartMem d' q → c ≤ dsq3 p q) ∧
+      (res = none → leaves t = []) := by
+  obtain ⟨res, hr, hopt, hnone⟩ := C07.bestFirst_optimal boxCost (fun _ d => dsq3 p (proj d)) t hlb
+  refine ⟨res, hr, ?_, hnone⟩
+  intro c d hres
+  obtain ⟨⟨b, hb, hc⟩, hmin⟩ := hopt c d hres
+  refine ⟨hc.symm, ⟨b, hb⟩, hmem d, ?_⟩
+  intro b' d' hl q hq
+  exact le_trans (hmin (b', d') hl) (hpart d' q hq)
+
+/-- the `solid && is_inside` early exit: a part that returns the query point itself is optimal (cost `0`) -/
+theorem composite_early_exit_optimal (p q : V3 K) : dsq3 p p ≤ dsq3 p q := by
+  simp only [dsq3]
+  nlinarith [mul_self_nonneg (p.x - q.x), mul_self_nonneg (p.y - q.y), mul_self_nonneg (p.z - q.z)]
+
+/-- world-space projection on a posed cuboid (`project_point(pos, pt, solid = true)`), and membership in the posed cuboid -/
+def posedCuboidProj (d : Iso3 K × Cuboid3 K) (p : V3 K) : V3 K :=
+  letI := fieldNum K sq
+  (posedProject3 (d.2.project) d.1 p true).pt
+def posedCuboidMem (d : Iso3 K × Cuboid3 K) (q : V3 K) : Prop :=
+  letI := fieldNum K sq
+  d.2.Mem (d.1.invAct q)
+
+theorem posedCuboid_nearest (d : Iso3 K × Cuboid3 K) (p : V3 K) (hu : Iso3.Unit d.1) (hc : CubOk3 d.2) :
+    posedCuboidMem sq d (posedCuboidProj sq d p) ∧
+    ∀ y, posedCuboidMem sq d y → dsq3 p (posedCuboidProj sq d p) ≤ dsq3 p y := by
+  letI := fieldNum K sq
+  unfold posedCuboidMem posedCuboidProj
+  exact posed_project_optimal3 sq (d.2.project) d.2.Mem d.2.Mem d.1 p true hu
+    (cub3_project_mem sq d.2 _ true hc)
+    (fun q hq => cub3_project_optimal sq d.2 _ q true hc hq (Or.inl rfl))
+
+attribute [irreducible] posedCuboidProj posedCuboidMem
+
+open Model.Bvh Model.Bvh.Tree in
+/-- instance of the corollary for a `Compound` of cuboid parts placed by unit isometries (solid posed projection): the part
+returned by the traversal carries a point of its posed cuboid that is at least as close to `p` as every point of every posed
+cuboid of the compound.  (Any other primitive of this file can be substituted for the cuboid: the only facts used are its
+`*_project_mem` and `*_project_optimal` theorems, transported by `posed_project_optimal3`.) -/
+theorem compound_cuboids_project_optimal {B : Type} (boxCost : B → K) (p : V3 K)
+    (t : Tree B {d : Iso3 K × Cuboid3 K // Iso3.Unit d.1 ∧ CubOk3 d.2})
+    (hlb : C07.LB boxCost (fun _ d => dsq3 p (posedCuboidProj sq d.1 p)) t) :
+    ∃ res, bestFirst C07.ltb boxCost (fun _ d => dsq3 p (posedCuboidProj sq d.1 p)) t = some res ∧
+      (∀ c d, res = some (c, d) →
+        c = dsq3 p (posedCuboidProj sq d.1 p) ∧ (∃ b : B, (b, d) ∈ leaves t) ∧ posedCuboidMem sq d.1 (posedCuboidProj sq d.1 p) ∧
+        ∀ b' d', (b', d') ∈ leaves t → ∀ q, posedCuboidMem sq d'.1 q → c ≤ dsq3 p q) ∧
+      (res = none → leaves t = []) :=
+  composite_project_optimal boxCost (fun d => posedCuboidProj sq d.1 p) (fun d q => posedCuboidMem sq d.1 q) p t
+    (fun d => (posedCuboid_nearest sq d.1 p d.2.1 d.2.2).1) (fun d q hq => (posedCuboid_nearest sq d.1 p d.2.1 d.2.2).2 q hq) hlb
 
 end C05
